@@ -813,6 +813,13 @@ def engine_contract(seed, dbs):
             self._journal_table_name = "workflow_journal"
             self._journal = None
             self._orphan_purge_done = False
+            # whatever further private state the real adapter's constructor sets up
+            try:
+                tmp = rt.InternalDBOSAdapter(run_id=RUNS[0], engine=None, db_path=path)
+                for k_, v_ in tmp.__dict__.items():
+                    self.__dict__.setdefault(k_, v_)
+            except Exception:  # noqa: BLE001
+                pass
 
         async def wait_for_next_task(self, running, pending, timeout=None):
             rk, pk = [nt.key for nt in running], [p.key for p in pending]
@@ -823,6 +830,13 @@ def engine_contract(seed, dbs):
                 ck = next((nt.key for nt in allnt if nt.task is res.completed), "?")
             calls.append((rk, pk, ck, [nt.key for nt in res.started]))
             return res
+
+    # ... and whatever further private helpers its wait_for_next_task calls
+    import inspect
+    for name_, f_ in vars(rt.InternalDBOSAdapter).items():
+        if inspect.isfunction(f_) and name_.startswith("_") and not name_.startswith("__") and name_ not in Hybrid.__dict__ \
+                and not hasattr(InternalAsyncioAdapter, name_):
+            setattr(Hybrid, name_, f_)
 
     class Rt(BasicRuntime):
         def get_internal_adapter(self, workflow):
